@@ -157,7 +157,79 @@ func RunReshareApply(out string, seed int64, tier string) error {
 		w.Close()
 		os.RemoveAll(dir)
 	}
-	rep.Rule = "histories of 1-3 resharing outputs (real epochs of the same key: other sizes / thresholds; perturbed period, genesis time, id, seed, transition time in the past) handed to a real BeaconProcess through onDKGCompleted; after each: group in memory, group and share in the key store, chain hash; distinct = events"
+	// ---- joiners: a FRESH process (key pair only, never in a group) is handed the output of an epoch
+	// in which it is a member: after the initial key generation (epoch 1) the beacon starts from
+	// scratch, which is refused once genesis has passed; after a resharing (epoch >= 2) the chain is
+	// running and the joiner must come up in catch-up mode, whenever the output arrives
+	var jlines, jdescr []string
+	njoin := 6
+	if tier == "thorough" {
+		njoin = 30
+	}
+	for ci := 0; ci < njoin; ci++ {
+		sch, _ := crypto.SchemeFromName(schemes[ci%len(schemes)])
+		now := time.Now().Unix()
+		epoch := []int{2, 3, 1, 2, 1, 5}[ci%6]
+		genesis := now - int64(50+rng.Intn(50))*3 // a running chain
+		if ci%6 == 4 || (ci%6 == 3 && rng.Intn(2) == 0) {
+			genesis = now + 100000 // not started yet
+		}
+		w, err := NewWorld(sch, 3, 2, 0, 3, genesis, now, "memdb")
+		if err != nil {
+			return err
+		}
+		dir, err := os.MkdirTemp("", "zzv-reshareapply-")
+		if err != nil {
+			return err
+		}
+		lg := log.New(discardSync{}, log.ErrorLevel, false)
+		cfg := core.NewConfig(lg, core.WithConfigFolder(dir), core.WithDBStorageEngine(chain.MemDB), core.WithMemDBSize(2000))
+		ks := &memKeyStore{pair: w.Privs[0]} // no group, no share: the node has never been in a group
+		ctx, cancel := context.WithCancel(context.Background())
+		bp, err := core.NewBeaconProcess(ctx, lg, ks, util.NewFanOutChan[dkg.SharingOutput](), "default", cfg,
+			&net.PrivateGateway{ProtocolClient: w.Client, PublicClient: nullPublic{}})
+		if err != nil {
+			cancel()
+			return err
+		}
+		ng := w.Epochs[0].Group
+		if epoch > 1 && genesis < now {
+			ng.TransitionTime = now + 5
+		}
+		so := &dkg.SharingOutput{BeaconID: "default", Old: nil, New: dkg.DBState{Epoch: uint32(epoch), FinalGroup: ng, KeyShare: w.Epochs[0].Shares[0]}}
+		evNow := time.Now().Unix()
+		var aerr error
+		done := make(chan struct{})
+		go func() { defer close(done); aerr = bp.VerifOnDKGCompleted(ctx, so) }()
+		select {
+		case <-done:
+		case <-time.After(60 * time.Second):
+			aerr = fmt.Errorf("onDKGCompleted did not return")
+		}
+		ran := aerr == nil && bp.VerifRoutingGroup() == ng
+		desc := fmt.Sprintf("joiner scheme=%s epoch=%d genesis=now%+d: err=%v", sch.Name, epoch, genesis-evNow, aerr)
+		jlines = append(jlines, fmt.Sprintf("mkJN %d %d %d %s", epoch, genesis, evNow, emit.Bool(ran)))
+		jdescr = append(jdescr, desc)
+		rep.Evaluations++
+		rep.Count(fmt.Sprintf("joiner/epoch>1=%v/genesis-passed=%v/ran=%v", epoch > 1, genesis < evNow, ran))
+		in := map[string]interface{}{"case": desc, "epoch": epoch, "genesis": genesis, "now": evNow, "error": fmt.Sprint(aerr)}
+		if epoch >= 2 && !ran {
+			// C07: no halted round as long as a threshold of the new group is up -- the joiners' shares count
+			rep.Fail("C07-joiner-of-a-resharing-does-not-start", "a node that joins through a resharing was handed the completed output and did not come up (no beacon loop: its share of the new group is never used)", in)
+		}
+		if ran && (ks.group != ng || ks.share != w.Epochs[0].Shares[0]) {
+			rep.Fail("C07-accepted-reshare-not-stored", "the joiner runs but its key store does not hold the group / share of the output", in)
+		}
+		rep.DistinctNontrivial++
+		bp.Stop(ctx)
+		cancel()
+		w.Close()
+		os.RemoveAll(dir)
+	}
+	if err := rep.Shard(out, "cases_reshareapplyjoin", []string{"From DV Require Import Model.Reshare Corr.ReshareCorr."}, "jncase", "mismatches_join", jlines, jdescr, 200); err != nil {
+		return err
+	}
+	rep.Rule = "histories of 1-3 resharing outputs (real epochs of the same key: other sizes / thresholds; perturbed period, genesis time, id, seed, transition time in the past) handed to a real BeaconProcess through onDKGCompleted; after each: group in memory, group and share in the key store, chain hash; fresh processes handed the output of an epoch in which they are members (epoch 1 / >= 2, genesis passed / not): does the beacon come up; distinct = events"
 	if err := rep.Shard(out, "cases_reshareapply", []string{"From DV Require Import Model.Reshare Corr.ReshareCorr."}, "racase", "mismatches_apply", lines, descr, 200); err != nil {
 		return err
 	}
